@@ -497,10 +497,11 @@ class Contract:
 REGISTRY = []
 
 
-def contract(qual, props, name=None, note="", z3_ms=None, cvc5_first=False):
+def contract(qual, props, name=None, note="", z3_ms=None, cvc5_first=False, cvc5_ms=None):
     def deco(fn):
         c = Contract(qual, fn, props, name, note)
         c.z3_ms = z3_ms      # per-query z3 budget; string-heavy contracts use a short one and let cvc5 take the unknowns
+        c.cvc5_ms = cvc5_ms          # per-query cvc5 budget where the default (8 s) is too close to what a query needs
         c.cvc5_first = cvc5_first    # obligations go to cvc5 before z3 (z3's sequence solver overruns its timeout on nested substrings)
         REGISTRY.append(c)
         return fn
@@ -739,6 +740,8 @@ def run_contract(prog_factory, con, max_paths=20000, budget_s=600):
         if getattr(con, "z3_ms", None):
             prog.timeout_ms = con.z3_ms
         prog.cvc5_first = bool(getattr(con, "cvc5_first", False))
+        if getattr(con, "cvc5_ms", None):
+            prog.cvc5_ms = max(prog.cvc5_ms, con.cvc5_ms)
         ctx = Ctx(prog, prefix)
         ctx.cname = con.name
         B = Builder(ctx, con)
